@@ -561,3 +561,20 @@ Proof. vm_compute. reflexivity. Qed.
 Example ex_list_total :
   total_on_chars_list_cex [Cls (not_ranges 10 10); rstr [13; 10]%N; rchar 10] = None.
 Proof. vm_compute. reflexivity. Qed.
+Example ex_list_not_total :
+  total_on_chars_list_cex [Cls (not_ranges 10 10); rstr [13; 10]%N] = Some 10%N.
+Proof. vm_compute. reflexivity. Qed.
+
+(* b and c lie in the same interval of the partition induced by [a-c]x, so the derivatives agree *)
+Example ex_same_side : same_side (bounds (Cat (Cls [(97, 99)%N]) (rchar 120))) 98 99.
+Proof. intros b Hb. cbn in Hb. destruct Hb as [<-|[<-|[<-|[<-|[]]]]]; reflexivity. Qed.
+
+Print Assumptions deriv_uniform.
+Print Assumptions equiv_check_sound.
+Print Assumptions equiv_check_witness.
+Print Assumptions equiv_check_cp_sound.
+Print Assumptions equiv_check_cp_witness.
+Print Assumptions total_on_chars_check_sound.
+Print Assumptions total_on_chars_cex_sound.
+Print Assumptions total_on_chars_list_sound.
+Print Assumptions total_on_chars_list_cex_sound.
